@@ -195,6 +195,8 @@ def run_case(rs, ctx):
     except Exception as ex:  # noqa: BLE001
         ctx.violation("Simulator.run raised %s: %s" % (type(ex).__name__, str(ex)[:120]), wit, kind="simulator_raised")
         return
+    if 0 < spec.get("chunk_size_used", 0) < spec["n_test"]:
+        ctx.count("multi_chunk_simulations")
     arms = spec["arms"]
     d = np.asarray(spec["d"])
     r = np.asarray(spec["r"], dtype=float)
